@@ -4,7 +4,7 @@ cd "$(dirname "$0")/.." || exit 2
 tier=${1:-quick}
 for id in $(python3 -c "import json;print(' '.join(c['property_id'] for c in json.load(open('MANIFEST.json'))['checks']))"); do
   s=$(date +%s)
-  ./check $id --tier $tier > /tmp/verif-runall-$id.log 2>&1
+  timeout ${RUNALL_TIMEOUT:-7200} ./check $id --tier $tier > /tmp/verif-runall-$id.log 2>&1
   rc=$?
   e=$(date +%s)
   echo "$id rc=$rc $((e-s))s $(grep -c '^VIOLATION' /tmp/verif-runall-$id.log) violations $(grep -c '^KNOWN-FINDING' /tmp/verif-runall-$id.log) known"
